@@ -216,5 +216,9 @@ package aucoalesce
 //@ ensures[C09] event.Type == old(event.Type)
 //@ ensures[C09] event.Timestamp == old(event.Timestamp)
 //@ ensures[C09] event.Data == old(event.Data)
+// warnings are only ever added: the ones attached by the earlier stages (duplicate
+// keys, unparsable records) are still there, in place, after normalisation
+//@ ensures[C09] len(event.Warnings) >= old(len(event.Warnings))
+//@ ensures[C09] forall j int :: 0 <= j && j < old(len(event.Warnings)) ==> event.Warnings[j] == old(event.Warnings[j])
 //@ loop 0 invariant norm == nil || normOK(norm)
 //@ loop 1 invariant norm == nil || normOK(norm)
